@@ -91,6 +91,13 @@ fn run(ctx: &RunCtx) -> Report {
             }
         }));
     }
+    let mut brng = Rng::new(crate::rng::key(ctx.seed, &[crate::rng::tag("c14-busy")]));
+    let busy = !big && plan.servers <= 8 && brng.chance(1, 3);
+    if busy {
+        // thousands of lookups: a snapshot (with its 1000 cached lookups) after every consumed datagram
+        // would dominate the run; fresh snapshots are requested just before every check instant instead
+        sim.set_snap_mode(SnapMode::OnDemand);
+    }
     let net = build(&sim, &mut rng, &plan);
     let all = net.all();
     let hours = if big {
@@ -104,6 +111,11 @@ fn run(ctx: &RunCtx) -> Report {
     if big {
         report.probe("big_network_runs", 1);
     }
+    // 1 small run in 5 (own random stream): a *busy node* - an indexer or relay that starts a lookup every
+    // 200..450 ms for the whole (one-hour) run, so that once a peer has died (each lookup then waits a
+    // request timeout for it) there is no tick without a lookup in progress. Maintenance must not depend on
+    // quiet moments. Such a run always has a crash without restart early on.
+    let hours = if busy { 1 } else { hours };
     let t0 = sim.now();
     let t_end = t0 + hours * 3600 * SEC;
 
@@ -135,6 +147,42 @@ fn run(ctx: &RunCtx) -> Report {
         });
         if let Some(rt) = restart {
             sim.at(rt, move |sim| sim.restart(victim, None));
+        }
+    }
+    let mut busy_node: Option<HostId> = None;
+    if busy {
+        let b = all[brng.usize(0, all.len() - 1)];
+        busy_node = Some(b);
+        let gap = brng.range(200, 450) * MS;
+        plan_lines.push(format!("busy node {}: a lookup every {} ms", sim.node_addr(b), gap / MS));
+        let mut at = t0 + brng.range(1, 30) * SEC;
+        let mut n = 0u64;
+        while at < t_end {
+            let t = brng.id();
+            let kind = brng.below(3);
+            sim.at(at, move |sim| {
+                if sim.alive(b) {
+                    match kind {
+                        0 => sim.find_node(b, t),
+                        1 => sim.get_immutable(b, t),
+                        _ => sim.get_peers(b, t),
+                    };
+                }
+            });
+            at += gap;
+            n += 1;
+        }
+        report.probe("busy_node_runs", 1);
+        report.probe("busy_node_lookups", n);
+        // a peer of the busy node dies for good in the first ten minutes
+        let cands: Vec<HostId> = net.servers.iter().copied().filter(|h| *h != b && *h != net.first && !crash_times.contains_key(h)).collect();
+        if !cands.is_empty() {
+            let victim = cands[brng.usize(0, cands.len() - 1)];
+            let at = t0 + brng.range(60, 600) * SEC;
+            crash_times.entry(victim).or_default().push((at, None));
+            plan_lines.push(format!("crash {} at t={}s restart=None (busy run)", sim.node_addr(victim), at / SEC));
+            sim.at(at, move |sim| sim.crash(victim));
+            report.probe("busy_node_runs_with_a_dead_peer", 1);
         }
     }
     // partitions: a server is cut off from everybody for a while, then the network heals
@@ -182,7 +230,8 @@ fn run(ctx: &RunCtx) -> Report {
     // clock jump; everything it knows is stale afterwards
     if rng.chance(1, 4) {
         let victim = net.servers[rng.usize(0, net.servers.len() - 1)];
-        if victim != net.first && !crash_times.contains_key(&victim) {
+        // (not the busy node: thousands of calls would queue up on a frozen process)
+        if victim != net.first && !crash_times.contains_key(&victim) && busy_node != Some(victim) {
             let at = t0 + rng.range(60, (hours * 3600).saturating_sub(2500).max(61)) * SEC;
             let d = rng.range(60, 2400) * SEC;
             plan_lines.push(format!("suspend {} at t={}s for {}s", sim.node_addr(victim), at / SEC, d / SEC));
@@ -255,6 +304,12 @@ fn run(ctx: &RunCtx) -> Report {
     let mut t = sim.now();
     'outer: while t < t_end {
         t += step;
+        if busy {
+            sim.run_until(t - 700 * MS);
+            for h in &all {
+                sim.want_snapshot(*h);
+            }
+        }
         sim.run_until(t);
         // new incarnations
         for h in &all {
@@ -494,7 +549,8 @@ fn run(ctx: &RunCtx) -> Report {
         // to converge (only late replies feed the estimator)
         let limit = if slow_links { 90 * SEC } else { *tau.borrow() + 2 * SEC + SEC };
         for (h, (dur, at)) in worst_empty.borrow().iter() {
-            if *dur > limit {
+            // (not in busy runs: their snapshots are 30 s apart, emptiness in between is not observed)
+            if *dur > limit && !busy {
                 report.violate(
                     "healthy-table",
                     "table-stayed-empty",
